@@ -361,6 +361,8 @@ def heredoc_corpus():
     # the empty delimiter, and delimiters whose quoting is nested
     for first, rest in ctxs[:6] + [("cat {H}", "")]:
         out.append(first.replace("{H}", "<<''") + "\nx\n\n" + rest)
+        out.append(first.replace("{H}", "<<''") + "\n\n" + rest)             # empty body, empty delimiter line
+        out.append(first.replace("{H}", "<<-\"\"") + "\n\t\n" + rest)
         out.append(first.replace("{H}", "<<\"a\\\"b\"") + "\n$x\na\"b\n" + rest)
     # two here-documents on one line, the second body with a multi-line expansion
     for first, rest in ctxs[:6]:
